@@ -41,6 +41,9 @@ partial def treeOf : Sexp → Option Op
   | .list (.atom "mergeslices" :: sls) => some (.mergeSlices (sls.map (fun s => intsOf s.items)))
   | .list (.atom "msi" :: sls) => some (.mergeSlices (sls.map (fun s => intsOf s.items)))
   | .list [.atom "jsonrt", t] => do pure (.jsonRound (← treeOf t))
+  -- JSON text with `null` elements: UnmarshalJSON decodes each element into a fresh zero value,
+  -- so the iterator holds the integers with 0 for every null (= jsonRound of that slice)
+  | .list (.atom "jsonlit" :: vs) => some (.jsonRound (.slice (vs.map (fun v => (v.int?).getD 0))))
   | _ => none
 
 def evStr : Ev → String
